@@ -190,6 +190,77 @@ def check_fill_request(kind: int, bufsize: int, bi: bool, reset: bool, flow: Lis
     return h.ok(True)
 
 
+def check_request_at_end(kind: int, bufsize: int, reset: bool, mid: int, flow: List[int]) -> bool:
+    """
+    pre: 1 <= kind <= 3
+    pre: 1 <= bufsize <= B.BUF
+    pre: len(flow) <= 3 * bufsize + 1
+    pre: 0 <= mid <= 3
+    pre: h.in_shard(kind - 1 + 3 * (bufsize - 1))
+    post: _
+    """
+    # the schedules with a single request() after many fills (several complete
+    # blocks buffered at once) - longer flows than check_fill_request affords;
+    # mid > 0: one more request() after mid complete blocks (a block boundary,
+    # outside the known findings)
+    n = len(flow)
+    rs = True if reset else False
+    el = make_el(kind)
+    fr = FillRequest(el, bufsize=bufsize, reset=rs, buffer_input=True)
+    fr._buffer_in = BoundedList(n + bufsize + 4)
+    got = []
+    try:
+        for i in range(n):
+            fr.fill(flow[i])
+            if mid > 0 and i + 1 == mid * bufsize:
+                got += list(fr.request())
+        got += list(fr.request())
+    except BufferBudget:
+        return h.ok(False)
+    if got != expected_run(kind, bufsize, rs, False, list(flow)):
+        return h.ok(False)
+    if kind != 3:
+        return h.ok(el.log == list(flow))
+    return h.ok(True)
+
+
+def check_two_instances(kind: int, bufsize: int, reset: bool, flow: List[int],
+                        sched: List[bool]) -> bool:
+    """
+    pre: 1 <= kind <= 3
+    pre: 1 <= bufsize <= B.BUF
+    pre: len(flow) <= B.FLOW
+    pre: len(sched) == len(flow)
+    pre: h.in_shard(kind - 1 + 3 * (bufsize - 1))
+    post: _
+    """
+    # two FillRequest elements alive at the same time and filled alternately
+    # (as two fill/request branches of one Split are): each accounts for its
+    # own values only.  Requests of the first one fall on block boundaries
+    # (outside the known findings), the second one is requested at the end.
+    n = len(flow)
+    rs = True if reset else False
+    ea, eb = make_el(kind), make_el(kind)
+    fa = FillRequest(ea, bufsize=bufsize, reset=rs, buffer_input=True)
+    fb = FillRequest(eb, bufsize=bufsize, reset=rs, buffer_input=True)
+    other = [v + 1000 for v in flow]
+    ga, gb = [], []
+    for i in range(n):
+        fa.fill(flow[i])
+        fb.fill(other[i])
+        if sched[i] and (i + 1) % bufsize == 0:
+            ga += list(fa.request())
+    ga += list(fa.request())
+    gb += list(fb.request())
+    if ga != expected_run(kind, bufsize, rs, False, list(flow)):
+        return h.ok(False)
+    if gb != expected_run(kind, bufsize, rs, False, other):
+        return h.ok(False)
+    if kind != 3:
+        return h.ok(ea.log == list(flow) and eb.log == other)
+    return h.ok(True)
+
+
 def check_split_around(kind: int, bufsize: int, sb: int, reset: bool, seqform: bool,
                        flow: List[int]) -> bool:
     """
@@ -257,6 +328,12 @@ CONDITIONS = [
     dict(fn="check_fill_request", shards=(9, 15), budget=(80, 1200),
          smoke=["check_fill_request(1, 2, True, True, [1, 2, 3, 4], [False, True, False, True])",
                 "check_fill_request(2, 1, False, True, [1, 2], [True, True])"]),
+    dict(fn="check_request_at_end", shards=(9, 15), budget=(80, 900),
+         smoke=["check_request_at_end(1, 2, True, 0, [1, 2, 3, 4, 5, 6])", "check_request_at_end(3, 3, False, 1, [1, 2, 3, 4, 5, 6, 7])",
+                "check_request_at_end(2, 1, True, 2, [1, 2, 3])"]),
+    dict(fn="check_two_instances", shards=(9, 15), budget=(80, 900),
+         smoke=["check_two_instances(1, 2, True, [1, 2, 3, 4], [False, True, False, True])",
+                "check_two_instances(3, 1, False, [1, 2], [True, False])", "check_two_instances(2, 3, True, [1, 2, 3, 4], [False, False, True, False])"]),
     dict(fn="check_split_around", shards=(9, 15), budget=(70, 900),
          smoke=["check_split_around(1, 2, 2, True, False, [1, 2, 3, 4, 5])",
                 "check_split_around(2, 1, 2, False, True, [1, 2, 3, 4])"]),
